@@ -37,6 +37,9 @@ checks = {
  "C19": ("model_checking", "explicit-state BFS over histories of symbol creation / generation / duplication / cloning on a family of real interpreters sharing one table",
          "all histories of depth 5 (thorough 7) over 24 operations (MakeSymbol of fixed and would-be-generated names, GenSymbol, Duplicate, Clone on members 0..2); in every state: equal names <=> equal numbers over all symbols returned, generated symbols fresh and pairwise distinct, table a bijection; plus 8 script-level programs",
          "state key = user table entries + per-member counters + generated names, read through verif accessors; family of at most 3", "§3 C19"),
+ "C15": ("exploration", "small-scope exhaustive enumeration of templates and macro call sites; value compared with an exact-substitution function, macro calls compared with hand-written expansions",
+         "every list/array template of width 1..3 over 20 leaves (literals, unquotes of 6 bindings, splices of 4 lists incl. empty and nested, compound and traced unquotes) and with width-1..2 nested containers, written with the reader sugar; 12 macros x all argument tuples over 5 forms x 7 call sites x {direct, inside another macro's expansion}: value, effects and stacks vs the hand expansion; macexpand prints the exact substitution and leaves the caller's depths and globals unchanged",
+         "trusts R4 (substitution inside the reference evaluator); splicing a non-list and nested syntax-quotes are skipped", "§3 C15"),
 }
 all_ids = ["C%02d" % i for i in range(1, 21)]
 pending = {i: "check not built yet in this tree (see DESIGN.md §7 build order); will be claimed when its machinery lands" for i in all_ids if i not in checks}
